@@ -1,8 +1,14 @@
 """
 Python regular expressions (sre_parse trees) -> z3 regular-expression terms; terminal lemmas.
 
-Alphabet bound of every string-level lemma: ASCII plus ∧ ∨ ⊻ (Python's Unicode case folding lets (?i:k) also match
-U+212A etc.; \\d also matches non-ASCII digits — such code points are outside the claims).
+Character level: every single-character node of the parsed pattern (literal, negated literal, set, category, '.') is
+compiled ON ITS OWN by the live `re` engine with the flags in force at that node and run once over the string of all
+1 114 112 code points (`findall`), so the class of characters it matches is exactly CPython's — including Unicode
+case-insensitive matching ((?i:k) also matches U+212A KELVIN SIGN, (?i:s) also U+017F LONG S) and the Unicode meaning
+of \\d, \\s, \\w.  That table is a static precomputation; the language-level statement (concatenation, alternation,
+repetition; no length bound) is what z3's regex theory decides.
+Alphabet bound of every string-level lemma: code points U+0000..U+2FFFF (z3's character sort); classes that have
+members above that are recorded in NOTES (Unicode 15 has no cased letter, digit or white space there).
 Look-around assertions cannot be expressed in z3's regex theory -> Unsupported.
 """
 
@@ -15,11 +21,17 @@ from typing import Optional
 import z3
 
 try:
-    import re._parser as sre_parse  # py3.11+
+    import re._compiler as sre_compile  # py3.11+
     import re._constants as sre_c
+    import re._parser as sre_parse
 except ImportError:  # pragma: no cover
+    import sre_compile
     import sre_constants as sre_c
     import sre_parse
+
+ZMAX = 0x2FFFF
+BOUND = "all strings over code points U+0000..U+2FFFF (z3's character sort), no length bound; character classes taken from the live re engine (Unicode case folding included)"
+NOTES = []
 
 
 class Unsupported(Exception):
@@ -27,6 +39,10 @@ class Unsupported(Exception):
 
 
 WS_CHARS = " \t\n\r\x0b\x0c"
+
+_ALLCHARS = None
+_CLASS_CACHE = {}
+_FLAGMASK = re.IGNORECASE | re.ASCII | re.DOTALL | re.MULTILINE | re.UNICODE
 
 
 def _ch(c: str):
@@ -43,49 +59,45 @@ def _union(parts):
 
 
 def _range(lo: int, hi: int):
+    if lo == hi:
+        return _ch(chr(lo))
     return z3.Range(chr(lo), chr(hi))
 
 
-def _case_variants(c: str, ignorecase: bool):
-    if ignorecase and c.isascii() and c.isalpha():
-        return {c.lower(), c.upper()}
-    return {c}
-
-
-def _category(cat):
-    if cat == sre_c.CATEGORY_DIGIT:
-        return _range(ord("0"), ord("9"))
-    if cat == sre_c.CATEGORY_SPACE:
-        return _union(_ch(c) for c in WS_CHARS)
-    if cat == sre_c.CATEGORY_WORD:
-        return _union([_range(ord("0"), ord("9")), _range(ord("a"), ord("z")), _range(ord("A"), ord("Z")), _ch("_")])
-    raise Unsupported(f"category {cat}")
-
-
-def _in(items, ignorecase: bool):
-    negate = False
-    parts = []
-    for op, av in items:
-        if op == sre_c.NEGATE:
-            negate = True
-        elif op == sre_c.LITERAL:
-            parts += [_ch(v) for v in _case_variants(chr(av), ignorecase)]
-        elif op == sre_c.RANGE:
-            lo, hi = av
-            parts.append(_range(lo, hi))
-            if ignorecase:
-                for c in range(lo, hi + 1):
-                    ch = chr(c)
-                    if ch.isascii() and ch.isalpha():
-                        parts += [_ch(v) for v in _case_variants(ch, True)]
-        elif op == sre_c.CATEGORY:
-            parts.append(_category(av))
+def char_class(node, flags: int):
+    """sorted list of (lo, hi) code-point ranges that the single-character node matches under `flags`, by the live engine"""
+    global _ALLCHARS
+    key = (repr(node), flags & _FLAGMASK)
+    if key in _CLASS_CACHE:
+        return _CLASS_CACHE[key]
+    if _ALLCHARS is None:
+        _ALLCHARS = "".join(map(chr, range(0x110000)))
+    state = sre_parse.State()
+    state.flags = flags & _FLAGMASK
+    if not state.flags & re.ASCII:
+        state.flags |= re.UNICODE
+    sp = sre_parse.SubPattern(state, [node])
+    try:
+        pat = sre_compile.compile(sp, state.flags)
+    except Exception as e:  # pylint:disable=broad-except
+        raise Unsupported(f"cannot compile node {node!r}: {e}") from e
+    cps = [ord(c) for c in pat.findall(_ALLCHARS)]
+    ranges = []
+    for cp in cps:
+        if ranges and ranges[-1][1] == cp - 1:
+            ranges[-1][1] = cp
         else:
-            raise Unsupported(f"set item {op}")
-    u = _union(parts)
-    if negate:
-        return z3.Intersect(z3.AllChar(z3.ReSort(z3.StringSort())), z3.Complement(u))
-    return u
+            ranges.append([cp, cp])
+    above = sum(hi - max(lo, ZMAX + 1) + 1 for lo, hi in ranges if hi > ZMAX)
+    if 0 < above < 0x110000 - ZMAX - 1:
+        NOTES.append(f"class {node!r} has {above} members above U+2FFFF (outside the alphabet bound)")
+    out = [(lo, min(hi, ZMAX)) for lo, hi in ranges if lo <= ZMAX]
+    _CLASS_CACHE[key] = out
+    return out
+
+
+def _class_re(node, flags: int):
+    return _union(_range(lo, hi) for lo, hi in char_class(node, flags))
 
 
 def _seq(parts):
@@ -97,26 +109,21 @@ def _seq(parts):
     return z3.Concat(*parts)
 
 
-def _conv(sub, ignorecase: bool):
+def _conv(sub, flags: int):
     out = []
-    for op, av in sub:
-        if op == sre_c.LITERAL:
-            out.append(_union(_ch(v) for v in _case_variants(chr(av), ignorecase)))
-        elif op == sre_c.NOT_LITERAL:
-            out.append(z3.Intersect(z3.AllChar(z3.ReSort(z3.StringSort())), z3.Complement(_union(_ch(v) for v in _case_variants(chr(av), ignorecase)))))
-        elif op == sre_c.ANY:
-            out.append(z3.Intersect(z3.AllChar(z3.ReSort(z3.StringSort())), z3.Complement(_ch("\n"))))
-        elif op == sre_c.IN:
-            out.append(_in(av, ignorecase))
+    for node in sub:
+        op, av = node
+        if op in (sre_c.LITERAL, sre_c.NOT_LITERAL, sre_c.ANY, sre_c.IN, sre_c.CATEGORY):
+            out.append(_class_re(node, flags))
         elif op == sre_c.BRANCH:
-            out.append(_union(_conv(b, ignorecase) for b in av[1]))
+            out.append(_union(_conv(b, flags) for b in av[1]))
         elif op == sre_c.SUBPATTERN:
             _group, add_flags, del_flags, p = av
-            ic = (ignorecase or bool(add_flags & re.IGNORECASE)) and not bool(del_flags & re.IGNORECASE)
-            out.append(_conv(p, ic))
+            sub_flags = flags & ~(re.ASCII | re.LOCALE | re.UNICODE) if add_flags & (re.ASCII | re.LOCALE | re.UNICODE) else flags  # sre_compile._combine_flags
+            out.append(_conv(p, (sub_flags | add_flags) & ~del_flags))
         elif op in (sre_c.MAX_REPEAT, sre_c.MIN_REPEAT):
             lo, hi, p = av
-            inner = _conv(p, ignorecase)
+            inner = _conv(p, flags)
             if hi == sre_c.MAXREPEAT:
                 if lo == 0:
                     out.append(z3.Star(inner))
@@ -127,41 +134,39 @@ def _conv(sub, ignorecase: bool):
             else:
                 out.append(z3.Loop(inner, lo, hi))
         elif op == sre_c.AT:
-            if av in (sre_c.AT_BEGINNING, sre_c.AT_BEGINNING_STRING, sre_c.AT_END, sre_c.AT_END_STRING):
+            if av in (sre_c.AT_BEGINNING, sre_c.AT_BEGINNING_STRING, sre_c.AT_END, sre_c.AT_END_STRING) and not flags & re.MULTILINE:
                 continue  # full-match semantics
             raise Unsupported(f"anchor {av}")
         elif op in (sre_c.ASSERT, sre_c.ASSERT_NOT):
             raise Unsupported("look-around assertion")
-        elif op == sre_c.CATEGORY:
-            out.append(_category(av))
         else:
             raise Unsupported(f"regex op {op}")
     return _seq(out)
 
 
 def to_z3(pattern: str, flags: int = 0):
+    """z3 RE of the full-match language of a Python str pattern (exact character classes, see module docstring)"""
     tree = sre_parse.parse(pattern, flags)
-    ic = bool((flags | tree.state.flags) & re.IGNORECASE)
-    return _conv(tree, ic)
-
-
-ASCII_PLUS = None
+    return _conv(tree, flags | tree.state.flags)
 
 
 def alphabet_re():
-    """strings over ASCII plus the three MaKo2022 symbols"""
-    global ASCII_PLUS
-    if ASCII_PLUS is None:
-        ASCII_PLUS = z3.Star(z3.Union(_range(0, 127), _ch("∧"), _ch("∨"), _ch("⊻")))
-    return ASCII_PLUS
+    """every string z3 can represent (code points <= U+2FFFF)"""
+    return z3.Full(z3.ReSort(z3.StringSort()))
 
 
-def re_equal(a, b, timeout_ms=30000):
-    """(verdict, witness, seconds): 'equal' | 'differ' (witness string) | 'unknown' — over the bounded alphabet"""
+def ascii_plus_re():
+    """strings over ASCII plus the three MaKo2022 symbols (what ahbicht's own builders can produce from parsed keys)"""
+    return z3.Star(z3.Union(_range(0, 127), _ch("∧"), _ch("∨"), _ch("⊻")))
+
+
+def re_equal(a, b, timeout_ms=30000, within=None):
+    """(verdict, witness, seconds): 'equal' | 'differ' (witness string) | 'unknown' — over all z3 strings (BOUND)"""
     s = z3.String("s")
     sol = z3.Solver()
     sol.set("timeout", timeout_ms)
-    sol.add(z3.InRe(s, alphabet_re()))
+    if within is not None:
+        sol.add(z3.InRe(s, within))
     sol.add(z3.InRe(s, a) != z3.InRe(s, b))
     t = time.time()
     r = sol.check()
@@ -204,7 +209,7 @@ def c07_bracket_lemma(run) -> None:
         run.ob(name, "z3-re", INCONCLUSIVE, detail=f"pattern outside the translatable subset: {u}")
         return
     doc = to_z3(r"\(\[[0-9]+\]\)")
-    verdict, witness, dt = re_equal(live, doc)
+    verdict, witness, dt = re_equal(live, doc, within=ascii_plus_re())  # collected expressions are built from parsed (ASCII) keys
     run.counters["smt_queries"] += 1
     run.counters["smt_time_s"] += dt
     if verdict == "equal":
@@ -213,7 +218,7 @@ def c07_bracket_lemma(run) -> None:
         if ok is None:
             run.ob(name, "z3-re", INCONCLUSIVE, detail="no group named body")
         else:
-            run.ob(name, "z3-re", HELD if ok else ERROR, time_s=round(dt, 3), bound="all strings over ASCII+∧∨⊻, no length bound")
+            run.ob(name, "z3-re", HELD if ok else ERROR, time_s=round(dt, 3), bound="all strings over ASCII+∧∨⊻ (the builder's output alphabet; \\d also matches non-ASCII digits, which no parsed key contains), no length bound")
         return
     if verdict == "unknown":
         run.ob(name, "z3-re", INCONCLUSIVE, detail="z3 returned unknown")
